@@ -555,6 +555,20 @@ def check_compare_segments(ctx, rep, rule_eq='O-equal-identity', rule_swap='O-sw
     rep.floor(rule_swap, 'decision paths per arm', len(sT), 10)
 
 
+def _index_of(v, direct=False):
+    """(symbolic part, constant) of the position in `vec[position]` (direct: v is the position itself)"""
+    from rules.walkrules import _lin
+    x = strip_upd(v)
+    if not direct:
+        while x[0] in ('deref', 'refval') and len(x) > 1:
+            x = strip_upd(x[1])
+        if x[0] not in ('call', 'pcall') or not re.search(r'ops::Index(Mut)?<.*>>::index(_mut)?$', x[1]) or len(x[2]) != 2:
+            return None
+        x = x[2][1]
+    d, c = _lin(x, {})
+    return (frozenset(d.items()), c)
+
+
 def check_order_events(ctx, rep, rule='O-consumers'):
     """order_events must bring result_events into sweep order using the full event order (Ord of Rc<SweepEvent>, reversed):
     either the bubble sort that swaps neighbours exactly when result_events[i-1] < result_events[i], or a std sort whose
@@ -570,15 +584,60 @@ def check_order_events(ctx, rep, rule='O-consumers'):
                 sort_calls.append(e)
         swaps = [e for e in p.calls() if e['callee'].endswith('::swap')]
         ltc = None
+        pair = None
         for (v, c) in p.conds:
             x = strip_upd(v)
             if x[0] == 'op' and x[1] in ('lt', 'gt') and 'index' in show(noepoch(x)):
-                s2, s3 = show(noepoch(x[2])), show(noepoch(x[3]))
-                first_is_prev = 'sub' in s2 and 'sub' not in s3
-                if (x[1] == 'lt' and first_is_prev) or (x[1] == 'gt' and not first_is_prev and 'sub' in s3):
+                ia, ib = _index_of(x[2]), _index_of(x[3])
+                if ia is None or ib is None or ia[0] != ib[0]:
+                    ltc = ('other', show(noepoch(x))[:80])
+                    continue
+                d = ib[1] - ia[1]
+                # ev[k] < ev[k+1]  ==  ev[k+1] > ev[k]
+                if (x[1] == 'lt' and d == 1) or (x[1] == 'gt' and d == -1):
                     ltc = c[1]
+                    pair = (ia[0], min(ia[1], ib[1]))
                 else:
                     ltc = ('other', show(noepoch(x))[:80])
+        if pair is not None and not isinstance(ltc, tuple) and swaps and 'swap' not in seen:
+            seen.add('swap')
+            # the swap exchanges the two compared positions
+            for e in swaps:
+                sw = [_index_of(a, direct=True) for a in e['args'][1:3]]
+                ok_sw = None not in sw and sorted(sw, key=lambda t: t[1]) == [(pair[0], pair[1]), (pair[0], pair[1] + 1)]
+                rep.ob(rule, 'bubble-swaps-the-compared-pair', ok_sw, 'order_events must swap the two positions it compared; it compares '
+                       '(j%+d, j%+d) and swaps %s' % (pair[1], pair[1] + 1, [show(noepoch(a))[:40] for a in e['args'][1:3]]),
+                       loc=b.loc(e['line']), reason='table-row')
+        if pair is not None and not isinstance(ltc, tuple) and 'pass' not in seen:
+            seen.add('pass')
+            # one pass compares every adjacent pair: positions k = j + a for j in lo..hi must be 0 .. len-2
+            rng = None
+            for e in p.events:
+                if e['k'] == 'loophead':
+                    for v in e.get('pre', {}).values():
+                        y = strip_upd(v)
+                        while y[0] in ('call', 'pcall') and y[1].endswith('into_iter') and len(y[2]) == 1:
+                            y = strip_upd(y[2][0])
+                        if y[0] == 'agg' and y[5].endswith('::Range') and len(y[4]) == 2:
+                            rng = y
+            ok_r = False
+            found = 'no index range'
+            if rng is not None:
+                from rules.walkrules import _lin
+                hi_v = strip_upd(rng[4][1])
+                sat = 0
+                if hi_v[0] in ('call', 'pcall') and hi_v[1].endswith('::saturating_sub') and len(hi_v[2]) == 2 and sym.is_const(strip_upd(hi_v[2][1])):
+                    # the number of neighbour pairs of n elements is max(n - 1, 0): the saturating form is the exact one
+                    sat = int(strip_upd(hi_v[2][1])[1])
+                    hi_v = hi_v[2][0]
+                lo, hi = _lin(rng[4][0], {}), _lin(hi_v, {})
+                hi = (hi[0], hi[1] - sat)
+                found = show(noepoch(rng))[:80]
+                hi_len = [k for k in hi[0] if 'len(' in k]
+                ok_r = (not lo[0]) and lo[1] + pair[1] == 0 and len(hi[0]) == 1 and len(hi_len) == 1 and hi[0][hi_len[0]] == 1 and hi[1] + pair[1] == -1
+            rep.ob(rule, 'bubble-pass-covers-all-neighbours', ok_r,
+                   'one pass of the re-sorting loop must compare every adjacent pair (k, k+1) for k in 0..len-1; it compares (j%+d, j%+d) for j in %s'
+                   % (pair[1], pair[1] + 1, found), loc=b.loc(b.j['line_lo']), reason='dominance')
         if ltc is None:
             continue
         ok = (bool(swaps) == (ltc is True)) and not isinstance(ltc, tuple)
@@ -613,7 +672,7 @@ def check_order_events(ctx, rep, rule='O-consumers'):
                'order_events sorts with %s; result events must be ordered by the complete event order of SweepEvent (x, y, right-before-left, '
                'angular, operand) in sweep direction, i.e. `sort_by(|a, b| b.cmp(a))`: events at one vertex are walked in that order' % why,
                loc=b.loc(e['line']), reason='table-row')
-    elif len(seen) < 2:
+    elif len([k for k in seen if isinstance(k, tuple)]) < 2:
         rep.ob(rule, 'result-events-are-ordered', False,
                'order_events neither bubble-sorts result_events with the event order nor calls a std sort', loc=b.loc(b.j['line_lo']),
                reason='anchor-missing')
@@ -733,6 +792,17 @@ def _seg_eval(at, val):
                 if op == 'lt':
                     return old_lt_new if first_old else (not old_lt_new and not val['lp_eq'])
                 return (not old_lt_new and not val['lp_eq']) if first_old else old_lt_new
+            if a[2] == 'y' and op in ('le', 'ge', 'eq', 'ne') and (val['x_eq'] or val['lp_eq']):
+                # with equal x the y coordinates are equal exactly when the points are
+                y_eq = val['lp_eq']
+                old_lt_new = val['y_lt'] and not y_eq
+                first_old = pair[0] == 'OLD'
+                if op == 'eq':
+                    return y_eq
+                if op == 'ne':
+                    return not y_eq
+                first_lt_second = old_lt_new if first_old else (not old_lt_new and not y_eq)
+                return (first_lt_second or y_eq) if op == 'le' else (not first_lt_second)
             raise ValueError('coordinate comparison %s %s' % (a[2], op))
         if a[0] == 'contour_id' and b[0] == 'contour_id':
             first_old = a[1] == 'OLD'
